@@ -80,6 +80,9 @@ type Thread struct {
 	result    Value
 }
 
+var profileSites map[string]int
+var profileMu sync.Mutex
+
 // Program is the shared, read-only part.
 type Program struct {
 	prog    *ssa.Program
@@ -151,6 +154,10 @@ type Exec struct {
 	harnessPkg *ssa.Package
 	inconclusive []string
 	assertsTotal int
+	pending []pendingAssert
+	known map[*Term]bool
+	regexps map[*Value]string
+	initNow *ssa.Function
 	wantCoverModels bool
 }
 
@@ -162,6 +169,7 @@ type ExecOpts struct {
 	Races       bool
 	IntMode     bool
 	Trace       bool
+	FullBytes   bool // vnd.Root/Sig/... fully symbolic instead of 5 symbolic bytes
 }
 
 type Violation struct {
@@ -188,6 +196,16 @@ func (e *Exec) feasible(extra ...*Term) Verdict {
 		if x.IsFalse() {
 			return Unsat
 		}
+	}
+	if profileSites != nil && e.cur != nil && e.cur.top != nil && e.cur.top.fn != nil {
+		fr := e.cur.top
+		key := fr.fn.String()
+		if fr.block != nil && fr.pc < len(fr.block.Instrs) {
+			key += " " + e.pos(fr.block.Instrs[fr.pc].Pos())
+		}
+		profileMu.Lock()
+		profileSites[key]++
+		profileMu.Unlock()
 	}
 	lits := make([]*Term, 0, len(e.pc)+len(extra))
 	lits = append(lits, e.pc...)
@@ -264,7 +282,16 @@ func (e *Exec) branch(cond *Term) bool {
 	if cond.IsFalse() {
 		return false
 	}
-	return e.choose("branch", []*Term{cond, e.ctx.Not(cond)}) == 0
+	// literals already decided on this path need no query (and no decision)
+	if v, ok := e.known[cond]; ok {
+		return v
+	}
+	nd := len(e.decisions)
+	r := e.choose("branch", []*Term{cond, e.ctx.Not(cond)}) == 0
+	_ = nd
+	e.known[cond] = r
+	e.known[e.ctx.Not(cond)] = !r
+	return r
 }
 
 // concretize returns a concrete value of t in [0, n), forking per value; the
@@ -434,7 +461,10 @@ func (e *Exec) ensureInit(p *ssa.Package) {
 	saved := e.cur
 	th := &Thread{id: -1, name: "init:" + p.Pkg.Path()}
 	e.cur = th
+	prevInit := e.initNow
+	e.initNow = init
 	e.callSync(th, init, nil)
+	e.initNow = prevInit
 	e.cur = saved
 }
 
